@@ -155,7 +155,26 @@ func Bindings(g *groups.Info, seed int64, n int) []Binding {
 			continue
 		}
 		b := pool[order[(i-i/3)%len(order)]]
-		switch rng.Intn(3) {
+		pick := rng.Intn(3)
+		if g.UnreducedOK && rng.Intn(3) == 0 {
+			pick = 3
+		}
+		switch pick {
+		case 3:
+			// an unreduced encoding of û (û + k*q < 2^256, largest k): accepted as is by this scalar type
+			v := new(big.Int).Set(b.U)
+			lim := new(big.Int).Lsh(big.NewInt(1), 256)
+			for {
+				nx := new(big.Int).Add(v, q)
+				if nx.Cmp(lim) >= 0 {
+					break
+				}
+				v = nx
+			}
+			raw := make([]byte, 32)
+			v.FillBytes(raw)
+			b.Load = "unreduced"
+			b.UBytes = reverse(raw)
 		case 0:
 			b.Load = "unmarshal"
 		case 1:
@@ -306,6 +325,7 @@ func (e *Env) Canon(v APoint) (*canonEntry, bool) {
 // ---------- replay ----------
 
 type regs struct {
+	raw    map[string]bool // scalar register holds an unreduced value (only via the "unreduced" load)
 	direct bool
 	S    map[string]kyber.Scalar
 	P    map[string]kyber.Point
@@ -385,7 +405,7 @@ func (e *Env) Replay(bh Behaviour, bhID string) int {
 	}
 	r := &regs{S: map[string]kyber.Scalar{}, P: map[string]kyber.Point{}, expS: map[string][]byte{},
 		expP: map[string][]byte{}, absS: map[string]AScalar{}, absP: map[string]APoint{},
-		direct: core.Hash64("snap", bhID)%2 == 0}
+		direct: core.Hash64("snap", bhID)%2 == 0, raw: map[string]bool{}}
 	for _, n := range sRegs {
 		a := bh[0].S[n]
 		res, ok := e.Eval(a)
@@ -505,6 +525,17 @@ func (e *Env) step(r *regs, st Step, bh Behaviour, idx int, bhID string) bool {
 		wantS = EncodeScalar(g, rv)
 	}
 
+	// pre-step clones: after the step every register other than the receiver must still be
+	// Equal to its clone (catches operand changes that the encoding does not show, e.g. an
+	// unreduced scalar canonicalised in place)
+	preS := map[string]kyber.Scalar{}
+	preP := map[string]kyber.Point{}
+	for _, n := range sRegs {
+		preS[n] = r.S[n].Clone()
+	}
+	for n, p := range r.P {
+		preP[n] = p.Clone()
+	}
 	var ret any
 	var recv any
 	var opErr error
@@ -554,6 +585,9 @@ func (e *Env) step(r *regs, st Step, bh Behaviour, idx int, bhID string) bool {
 				if !bytes.Equal(in, e.Bind.UBytes) {
 					opErr = fmt.Errorf("SetBytes modified its input slice")
 				}
+			case "unreduced":
+				opErr = r.S[st.D].UnmarshalBinary(append([]byte(nil), e.Bind.UBytes...))
+				ret = recv
 			case "int64":
 				ret = r.S[st.D].SetInt64(e.Bind.U.Int64())
 			default:
@@ -613,6 +647,34 @@ func (e *Env) step(r *regs, st Step, bh Behaviour, idx int, bhID string) bool {
 		return false
 	}
 	ok := true
+	// An unreduced scalar (only reachable through UnmarshalBinary of unreduced bytes) is outside the
+	// value domain of C01-C03: when a step consumes one, its result is not judged; what is judged is
+	// that the step left every register other than its receiver alone. The behaviour ends there.
+	consumesRaw := false
+	if st.Op != "s.set" && st.Op != "s.clone" && st.Op != "s.loadu" {
+		for _, n := range []string{st.A, st.B} {
+			if r.raw[n] {
+				consumesRaw = true
+			}
+		}
+	}
+	if consumesRaw {
+		if recv != nil && ret != recv {
+			e.Res.Violate(e.key(st, "return-not-receiver"), fmt.Sprintf("%s on %s returned an object other than its receiver", st.Op, g.Name), e.detail(bh, idx, nil))
+		}
+		for _, n := range sRegs {
+			if n != st.D && (!r.S[n].Equal(preS[n]) || !preS[n].Equal(r.S[n])) {
+				e.Res.Violate(e.key(st, "operand-changed:"+role(st, n)), fmt.Sprintf("%s on %s: scalar register %s is no longer Equal to the clone taken before the call", st.Op, g.Name, n), e.detail(bh, idx, map[string]any{"reg": n, "unreduced_operand": true}))
+			}
+		}
+		for n, p := range r.P {
+			if n != st.D && (!p.Equal(preP[n]) || !preP[n].Equal(p)) {
+				e.Res.Violate(e.key(st, "operand-changed:"+role(st, n)), fmt.Sprintf("%s on %s: point register %s is no longer Equal to the clone taken before the call", st.Op, g.Name, n), e.detail(bh, idx, map[string]any{"reg": n, "unreduced_operand": true}))
+			}
+		}
+		e.Res.Skip("unreduced-operand-result-not-judged")
+		return false
+	}
 	// (1) the method returns its receiver
 	if recv != nil && ret != recv {
 		e.Res.Violate(e.key(st, "return-not-receiver"), fmt.Sprintf("%s on %s returned an object other than its receiver", st.Op, g.Name),
@@ -626,6 +688,16 @@ func (e *Env) step(r *regs, st Step, bh Behaviour, idx int, bhID string) bool {
 	} else {
 		r.absS[st.D] = absS
 		r.expS[st.D] = wantS
+		// an unreduced operand keeps its bytes through load / Set / Clone / encode-decode; every
+		// arithmetic result is canonical again
+		switch {
+		case st.Op == "s.loadu" && e.Bind.Load == "unreduced":
+			r.raw[st.D] = true // MarshalBinary reduces, so the expected encoding stays canonical
+		case (st.Op == "s.set" || st.Op == "s.clone") && r.raw[st.A]:
+			r.raw[st.D] = true
+		default:
+			r.raw[st.D] = false
+		}
 	}
 	for _, n := range sRegs {
 		got := snapS(r.S[n])
@@ -655,6 +727,18 @@ func (e *Env) step(r *regs, st Step, bh Behaviour, idx int, bhID string) bool {
 			}
 		}
 	}
+	for _, n := range sRegs {
+		if n != st.D && (!r.S[n].Equal(preS[n]) || !preS[n].Equal(r.S[n])) {
+			e.Res.Violate(e.key(st, "operand-changed:"+role(st, n)), fmt.Sprintf("%s on %s: scalar register %s is no longer Equal to the clone taken before the call", st.Op, g.Name, n), e.detail(bh, idx, map[string]any{"reg": n}))
+			ok = false
+		}
+	}
+	for n, p := range r.P {
+		if n != st.D && (!p.Equal(preP[n]) || !preP[n].Equal(p)) {
+			e.Res.Violate(e.key(st, "operand-changed:"+role(st, n)), fmt.Sprintf("%s on %s: point register %s is no longer Equal to the clone taken before the call", st.Op, g.Name, n), e.detail(bh, idx, map[string]any{"reg": n}))
+			ok = false
+		}
+	}
 	if !ok {
 		return false
 	}
@@ -676,8 +760,8 @@ func (e *Env) step(r *regs, st Step, bh Behaviour, idx int, bhID string) bool {
 		}
 	} else {
 		for _, n := range sRegs {
-			if n == st.D {
-				continue
+			if n == st.D || r.raw[n] || r.raw[st.D] {
+				continue // Equal on unreduced values is outside C02/C03
 			}
 			want := bytes.Equal(r.expS[n], r.expS[st.D])
 			if r.S[st.D].Equal(r.S[n]) != want || r.S[n].Equal(r.S[st.D]) != want {
